@@ -314,10 +314,17 @@ func checkConc(prop, tier string, seed uint64, spec propSpec, start time.Time) i
 				nr, d = 1, dur
 			}
 			from := 0
-			for round := 0; round < nr; round++ {
-				pfx := filepath.Join(b.Scratch, fmt.Sprintf("race-%s-%d-%d", p.t.cfg.Name, p.worker, round))
+			for round, sub := 0, 0; round < nr; round++ {
+				roundEnd := time.Now().Add(time.Duration(d) * time.Second)
+			again:
+				left := int(time.Until(roundEnd).Seconds())
+				if left < 1 {
+					left = 1
+				}
+				sub++
+				pfx := filepath.Join(b.Scratch, fmt.Sprintf("race-%s-%d-%d-%d", p.t.cfg.Name, p.worker, round, sub))
 				args := []string{"conc", "-config", p.t.cfg.Name, "-seed", fmt.Sprint(seed), "-worker", fmt.Sprint(p.worker), "-pool", poolFile,
-					"-ref", refFiles[p.t.cfg.Name], "-dur", fmt.Sprintf("%ds", d), "-from", fmt.Sprint(from)}
+					"-ref", refFiles[p.t.cfg.Name], "-dur", fmt.Sprintf("%ds", left), "-from", fmt.Sprint(from)}
 				if p.t.family != "" {
 					args = append(args, "-family", p.t.family)
 				} else if nr > 1 {
@@ -340,6 +347,12 @@ func checkConc(prop, tier string, seed uint64, spec propSpec, start time.Time) i
 					return
 				}
 				from = int(num(r.stats, "last_idx"))
+				if n, ok := r.stats["notes"].(map[string]interface{}); ok && num(n, "process_ended_early_library_goroutines_alive") > 0 && time.Until(roundEnd) > 2*time.Second && sub < 4000 {
+					// the worker stopped after an episode that left goroutines of
+					// the library alive: a fresh process takes over for the rest
+					// of the round
+					goto again
+				}
 			}
 		}(p)
 	}
